@@ -257,6 +257,19 @@ def commit_tags(spec):
     return out
 
 
+# (none of them starts with 'build_<digits>_': the pattern is anchored at the start of the tag name only)
+TAG_NAMESPACES = ["withdrawn", "old", "qa/old", "archive/2019", "x", "build", "release_1_2", "xbuild_1_master_success",
+                  "tags", "refs/tags", "success", "build_x_release_1_2", "build_"]
+
+
+def namespaced_tag(rng, n):
+    """a tag kept in a namespace (refs/tags/<dir>/<name>, one or two '/' in the tag name) whose LAST component reads
+    like a successful-build tag: the name as a whole is not a build tag (the pattern is matched against the whole tag
+    name), whatever its last component says"""
+    last = rng.choice([f"build_{n}_release_{rng.choice([1, 2, 10])}_{rng.choice([0, 2, 250])}_success", f"build_{n}_master_success"])
+    return rng.choice(TAG_NAMESPACES) + "/" + last
+
+
 class _Blob:
     def __init__(self, text):
         self.data = text.encode()
@@ -1420,7 +1433,8 @@ def gen_history(rng, n, *, p_merge=0.2, p_root=0.05, p_tag=0.25, p_match=0.35, n
                     spec["ver"] = [rng.choice([1, 3, 10]), rng.choice([0, 7, 270])]
                 else:
                     tags.append(["j", rng.choice(["v1.%d" % build_no, "build_%d_release_1_2_failed" % build_no,
-                                                  "nightly-%d" % build_no])])
+                                                  "nightly-%d" % build_no, namespaced_tag(rng, build_no),
+                                                  namespaced_tag(rng, build_no)])])
             if rng.random() < 0.3:
                 rng.shuffle(tags)
             spec["tags"] = tags
@@ -1545,7 +1559,8 @@ def gen_session(rng, n=None):
                     below = sorted(reach_sets(commits)[refs[rng.choice(mine)][1]])
                     i = rng.choice(below)
                 commits[i].setdefault("tags", []).append(
-                    ["r", build_no, rng.choice([1, 1, 2, 10]), rng.choice([0, 2, 10, 250])])
+                    ["r", build_no, rng.choice([1, 1, 2, 10]), rng.choice([0, 2, 10, 250])]
+                    if rng.random() < 0.8 else ["j", namespaced_tag(rng, build_no)])
             elif op in ("commit", "merge") and mine:
                 j = rng.choice(mine)
                 ps = [refs[j][1]]
@@ -1682,7 +1697,7 @@ def gen_refs_case(rng):
                 continue
             table.append([t, n, b])
         else:
-            t = rng.choice(JUNK_TAGS)
+            t = rng.choice(JUNK_TAGS) if rng.random() < 0.6 else namespaced_tag(rng, rng.randrange(1, 3000))
             if t in [x for x, _ in tags]:
                 continue
         tags.append((t, rng.choice(shas)))
@@ -1956,7 +1971,8 @@ def _shrink_plain(case):
 
 RULE = ("generated single-repository histories of 1-45 commits: random DAGs with merges (2-3 parents, shuffled parent "
         "order), several roots, parallel tagged sub-branches, build tags (release_M_m, master+VERSION file, several per "
-        "commit, junk tags) on ordinary and merge commits, 1-5 release branches with numeric-tricky / equal-key names, "
+        "commit, junk tags incl. namespaced tags <dir>/<name> with one or two '/' whose last component reads like a build tag "
+        "and are not build tags) on ordinary and merge commits, 1-5 release branches with numeric-tricky / equal-key names, "
         "master and/or main, foreign refs, heads at tips, at random commits, equal to or inside another branch's history, "
         "matching messages at random commits (text in the subject or only in the body), 10 plain search texts incl. the empty "
         "one and (30%) search texts with characters that mean something to a regular expression / glob / LIKE pattern "
